@@ -107,6 +107,8 @@ pub fn minimise_case(case: &Case, fails: &mut dyn FnMut(&Case) -> bool, budget: 
                 }
                 2 => {
                     c.plan.stderr_errno = 0;
+                    c.plan.stdout_errno = 0;
+                    c.plan.env.clear();
                     c.plan.wall_back.clear();
                 }
                 _ => c.plan.dirseed = 0,
